@@ -90,6 +90,28 @@ Theorem rerun_needs_spelling :
 Proof. exact rerun_spelling_counterexample. Qed.
 Print Assumptions rerun_needs_spelling.
 
+(** Push with --delete: the delete list.  The plan's stale paths are written, NUL-terminated, into the pipe of the
+    remote delete command in one or several write calls; a kill between two of them delivers a PREFIX [arrived] of the
+    byte string (any prefix: the quantifier covers every chunking and every kill point).  The remote command
+    (Model/ShellQuote.v [remote_delete]: stage, compare the byte count, only then `xargs -0 rm`) then hands to `rm`
+    either exactly the plan's list - when everything arrived - or nothing: no path outside the plan is ever removed.
+    Before the repair 297f20b the same statement was false ([crash_push_delete_unchecked_refuted]): `xargs -0` takes
+    the cut-off tail of the input for a path. *)
+Require Copia.Model.ShellQuote Copia.Proofs.ShellQuoteProofs.
+Theorem crash_push_delete_all_or_nothing :
+  forall (ps : list (list Z)) (arrived rest : list Z),
+  Forall (fun p => ~ In 0 p) ps -> ShellQuote.nul_list ps = arrived ++ rest ->
+  ShellQuote.remote_delete (Z.of_nat (length (ShellQuote.nul_list ps))) arrived = match rest with [] => ps | _ => [] end.
+Proof. intros ps arrived rest. exact (ShellQuoteProofs.remote_delete_prefix_lemma ps arrived rest). Qed.
+Print Assumptions crash_push_delete_all_or_nothing.
+
+Theorem crash_push_delete_unchecked_refuted :
+  exists (ps : list (list Z)) (arrived rest : list Z) (q : list Z),
+  Forall (fun p => ~ In 0 p) ps /\ ShellQuote.nul_list ps = arrived ++ rest /\
+  In q (ShellQuote.remote_delete_unchecked arrived) /\ ~ In q ps.
+Proof. exists [[97; 98]], [97], [98; 0], [97]. exact ShellQuoteProofs.remote_delete_unchecked_counterexample. Qed.
+Print Assumptions crash_push_delete_unchecked_refuted.
+
 (** Non-vacuity.  Two deliveries (a two-chunk file over an existing entry, a
     one-chunk new file): a crash after an interleaved prefix leaves both paths as
     they were, with staging contents [1;2] and [9]; a killed push then publishes
